@@ -447,7 +447,8 @@ class FakeGenerator:
         self.log = log if log is not None else []
 
     def choice(self, vals, p=None, size=None):
-        vals = list(vals)
+        ints = isinstance(vals, (int, np.integer)) and not isinstance(vals, bool)
+        vals = list(range(int(vals))) if ints else list(vals)     # numpy: choice(n) draws from arange(n)
         if p is None:
             p = [1.0 / len(vals)] * len(vals)
         p = [float(x) for x in p]
@@ -461,6 +462,8 @@ class FakeGenerator:
         idx = [self.o.choose(p, "choice") for _ in range(n)]
         if size is None:
             return vals[idx[0]]
+        if ints:
+            return np.array([vals[i] for i in idx], dtype=np.int64)
         out = np.zeros(n, dtype=object)
         for j, i in enumerate(idx):
             out[j] = vals[i]
